@@ -89,6 +89,13 @@ func buildSharedOne(v *Val) sharedObj {
 			return sharedObj{val: pa, kind: "*[16]byte", fp: func() string { return fmt.Sprintf("array=%x", pa[:]) }}
 		case 5:
 			return sharedObj{val: simBytes(field), kind: "named []byte field", fp: fp}
+		case 6:
+			// deliberately not sorted: Join and JoinTo must leave the order alone
+			rss := []redact.RedactableString{"z ‹b›", redact.RedactableString(redact.EscapeBytes(field)), "a", "‹m›"}
+			return sharedObj{val: rss, kind: "[]RedactableString", fp: func() string { return fmt.Sprintf("%q", rss) }}
+		case 7:
+			ss := []string{"z", string(field), "a"}
+			return sharedObj{val: ss, kind: "[]string", fp: func() string { return fmt.Sprintf("%q", ss) }}
 		}
 		return sharedObj{val: field, kind: "[]byte field of a record", fp: fp}
 	}
@@ -132,13 +139,18 @@ func (g *gen) sharedSpec() Val {
 		}
 		return v
 	}
-	record := g.payload() + "0123456789abcdef"
+	// (short: JoinTo prints a []byte element by element)
+	record := g.payload()
+	if len(record) > 120 {
+		record = record[:120]
+	}
+	record += "0123456789abcdef"
 	lo := g.r.Intn(4)
 	hi := lo + 1 + g.r.Intn(8)
 	if g.chance(0.25) {
 		lo, hi = 0, len(record)
 	}
-	return Val{K: "subbytes", S: Str(record), I: int64(g.r.Intn(6)), V: []Val{{K: "int", I: int64(lo)}, {K: "int", I: int64(hi)}}}
+	return Val{K: "subbytes", S: Str(record), I: int64(g.r.Intn(8)), V: []Val{{K: "int", I: int64(lo)}, {K: "int", I: int64(hi)}}}
 }
 
 var sharedFormats = []string{"%-12s|", "%-9.3s|", "%s", "%v", "%x", "%q", "%-20v|", "% x", "%10s|", "%-6d|", "%+v", "%-*s|", "%.4s", "%-30q|", "%X", "%#v"}
@@ -146,7 +158,11 @@ var sharedFormats = []string{"%-12s|", "%-9.3s|", "%s", "%v", "%x", "%q", "%-20v
 // sharedOp prints one shared value, alone or among other operands.
 func (g *gen) sharedOp(depth int) Op {
 	sh := Val{K: "shared", I: int64(g.r.Intn(g.shared))}
-	switch g.r.Intn(5) {
+	switch g.r.Intn(7) {
+	case 5:
+		return Op{K: "jointo", F: Str(g.redactableLit()), A: []Val{sh}, Dst: g.safeScriptNoCtl(g.r.Intn(2))}
+	case 6:
+		return Op{K: "join", F: Str(g.redactableLit()), A: []Val{sh}}
 	case 0:
 		a := []Val{sh}
 		if g.chance(0.4) {
